@@ -188,15 +188,15 @@ fn generate_indirect_store_simple_item(
             if arraytype.basetype == BaseType::Char {
                 quote! {a2lfile::GenericIfData::String(#locationinfo, #itemname.to_owned())}
             } else {
-                let arrayitem_locinfo = quote! {#locationinfo[idx]};
+                // each nesting level binds its own element and location, so that arrays of arrays work
                 let parsercall = generate_indirect_store_simple_item(
-                    &quote! {*item},
-                    &arrayitem_locinfo,
+                    &quote! {(*arrayitem)},
+                    &quote! {(*arrayloc)},
                     &arraytype.basetype,
                 );
                 quote! {a2lfile::GenericIfData::Array({
                     let mut arraycontent = Vec::new();
-                    for (idx, item) in #itemname.iter().enumerate() {
+                    for (arrayitem, arrayloc) in (#itemname).iter().zip((#locationinfo).iter()) {
                         arraycontent.push(#parsercall);
                     }
                     arraycontent})
